@@ -290,7 +290,7 @@ func runC10(c *Ctx, pr *PropertyRun) {
 	// tags, dates and hrefs are written and read by inverse pairs, in the
 	// multistatus and in the headers (shared with C16.pairs)
 	c16Pairs(c, pr, "C10", func(what string) bool {
-		return strings.HasPrefix(what, "entity tag") || what == "HTTP date" || what == "href"
+		return strings.HasPrefix(what, "entity tag") || what == "HTTP date" || what == "href" || what == "status line"
 	})
 	utcRule(c, pr, "C10")
 
@@ -837,7 +837,7 @@ func runC05(c *Ctx, pr *PropertyRun) {
 
 	// the wire codecs of names, tags and dates are inverse pairs (shared with C16.pairs)
 	c16Pairs(c, pr, "C05", func(what string) bool {
-		return strings.HasPrefix(what, "entity tag") || what == "HTTP date" || what == "href"
+		return strings.HasPrefix(what, "entity tag") || what == "HTTP date" || what == "href" || what == "status line"
 	})
 	// modification times are written as UTC (shared with C16.utc): a literal
 	// "GMT"/"Z" layout applied to an instant in another zone shifts it
@@ -989,18 +989,94 @@ func definitelyNonEmpty(v ssa.Value, depth int) bool {
 			if !ok {
 				return false
 			}
-			// a numeric verb always prints at least one digit
-			for _, verb := range []string{"%x", "%d", "%X", "%o", "%b", "%q", "%v"} {
-				if strings.Contains(f, verb) {
+			// a numeric verb applied to a number always prints at least one
+			// digit; %q always prints the quotes
+			var va []ssa.Value
+			if len(x.Common().Args) > 1 {
+				va = variadicElems(x.Common().Args[1])
+			}
+			ai := 0
+			for i := 0; i+1 < len(f); i++ {
+				if f[i] != '%' {
+					continue
+				}
+				i++
+				for i < len(f) && strings.ContainsRune("+-# 0123456789.", rune(f[i])) {
+					i++
+				}
+				if i >= len(f) || f[i] == '%' {
+					continue
+				}
+				var at types.Type
+				if ai < len(va) && va[ai] != nil {
+					at = va[ai].Type()
+				}
+				ai++
+				if f[i] == 'q' {
+					return true
+				}
+				if b, ok := underlyingBasic(at); ok && b.Info()&types.IsNumeric != 0 && strings.ContainsRune("xXdobv", rune(f[i])) {
 					return true
 				}
 			}
-			return strings.Trim(f, "%sv") != "" && !strings.Contains(f, "%")
-		case "strconv.FormatInt", "strconv.FormatUint", "strconv.Itoa", "strconv.Quote":
+			// literal text besides the verbs
+			lit := f
+			for _, verb := range []string{"%s", "%v", "%x", "%d", "%X", "%o", "%b"} {
+				lit = strings.ReplaceAll(lit, verb, "")
+			}
+			return lit != "" && !strings.Contains(lit, "%")
+		case "strconv.FormatInt", "strconv.FormatUint", "strconv.Itoa", "strconv.Quote", "strconv.QuoteToASCII",
+			"strconv.AppendInt", "strconv.AppendUint", "strconv.AppendQuote", "strconv.AppendQuoteToASCII", "strconv.AppendBool":
+			// at least one digit / the quotes are written (Append*: appended)
 			return true
 		}
 	}
 	return false
+}
+
+// variadicElems: the values stored into the slice literal the compiler builds
+// for a variadic call, by index (interface conversions taken off).
+func variadicElems(v ssa.Value) []ssa.Value {
+	sl, ok := v.(*ssa.Slice)
+	if !ok {
+		return nil
+	}
+	al, ok := sl.X.(*ssa.Alloc)
+	if !ok {
+		return nil
+	}
+	var out []ssa.Value
+	for _, ref := range refsOf(al) {
+		ia, ok := ref.(*ssa.IndexAddr)
+		if !ok {
+			continue
+		}
+		idx, isConst := constInt(ia.Index)
+		if !isConst {
+			continue
+		}
+		for _, r2 := range refsOf(ia) {
+			if st, ok := r2.(*ssa.Store); ok && st.Addr == ssa.Value(ia) {
+				val := st.Val
+				if mi, ok := val.(*ssa.MakeInterface); ok {
+					val = mi.X
+				}
+				for int64(len(out)) <= idx {
+					out = append(out, nil)
+				}
+				out[idx] = val
+			}
+		}
+	}
+	return out
+}
+
+func underlyingBasic(t types.Type) (*types.Basic, bool) {
+	if t == nil {
+		return nil, false
+	}
+	b, ok := t.Underlying().(*types.Basic)
+	return b, ok
 }
 
 func sortedJoin(xs []string) string {
